@@ -18,9 +18,17 @@ LEVEL = {
     "C11": ("proof", "Model of tuple flattening (props/C11.v) + correspondence on tuple hints of length 1-3 with plain positions, as parameter and return; reported element names compared." + CORR, "DESIGN.md 7 C11"),
     "C14": ("proof", "Model of the four entry points (props/C14.v) + the same field list rendered as function, dataclass, NamedTuple and pydantic model with shuffled keyword order; the four outcomes must agree with each other and with the model." + CORR, "DESIGN.md 7 C14"),
     "C15": ("proof", "Finite theorem over the regenerated tables (shared dtypes: library-independent) + every context executed under three library assignments (numpy / torch / mixed incl. jax)." + CORR, "DESIGN.md 7 C15"),
+    "C09": ("proof", "World model with the two channels the code used to have (annotation flag shared through aliases, provider mapping adopted as binding table): isolation proved for the repaired semantics, refuted for the legacy one (props/C09.v) + histories over families of functions sharing aliases and long-lived provider dicts, random decoration order, 8-thread runs and nested checked calls; thread interleavings are tested, not proved (GIL scheduling cannot be exhibited by the model)." + CORR, "DESIGN.md 7 C09"),
+    "C12": ("proof", "Model of the provider protocol (props/C12.v: the provider value becomes the initial binding table of exactly this call) + histories with changing provider values (fresh / long-lived dict, rebinding / in-place), self providers on methods, objects without the protocol, self on plain functions." + CORR, "DESIGN.md 7 C12"),
+    "C13": ("proof", "Theorems over Config.v for every environment string, enabled argument and decorator kind (C13_identity, C13_explicit_wins, C13_environment) + every combination of DLTYPE_DISABLE x DLTYPE_DEBUG_MODE x logging level in fresh interpreters x enabled argument x decorator kind on a fixed corpus; pydantic-settings' bool table is trusted and probed by the same runs.", "DESIGN.md 7 C13"),
+    "C16": ("proof", "PARTIAL. Proved on the model: the body's value / exception reaches the caller unchanged once arguments are accepted. Name/doc/signature, argument forwarding for every parameter kind, exception identity, method kinds, and NamedTuple / dataclass fields, equality, repr, isinstance, immutability and pickling are CPython object-model behaviour without decision logic: compared against undecorated twins by the harness (a test, labelled as such in the evidence).", "DESIGN.md 7 C16"),
+    "C17": ("proof", "PARTIAL. Model of the pydantic after-validator (per-validation context in field order, props/C17.v) + histories of constructions / model_validate / assignments, nested models, class-definition dtype cross-check for npt.NDArray; model_dump / iteration / repr are compared by the harness only; validate_assignment is the listed known finding K2." + CORR, "DESIGN.md 7 C17"),
+    "C18": ("proof", "Model of the symbolic printer (Symbolic.v) tied to the grammar (props/C18.v) + random operator trees built by Python's own evaluation of generated source: printed string vs model, demanded axis size vs plain integer evaluation of the same Python expression; negative constants are the listed known finding K4." + CORR, "DESIGN.md 7 C18"),
+    "C19": ("proof", "PARTIAL. Proved: the wrapper is extensionally the body on conforming inputs, hence (Section hypothesis about the capture mechanism, named in the trusted base) captured decorated = captured original. What torch.jit.trace / torch.jit.script / torch.compile really do is runtime behaviour the model cannot exhibit: tested on a module family against undecorated twins (quick: eager, trace, script; thorough adds torch.compile).", "DESIGN.md 7 C19"),
     "C20": ("proof", "Finite theorem C20_config over coq/gen/GenConfig.v, regenerated on every run from fresh interpreters with a masking import hook (8 masks), against the hand model of the if/elif chains; plus one accepted / one rejected checked call per available library in each interpreter.", "DESIGN.md 7 C20"),
 }
 TECH = {p: "Coq 8.16 proof about a hand-written executable model + extracted-model/implementation correspondence (differential execution)" for p in LEVEL}
+TECH["C13"] = "Coq 8.16 theorems over the configuration model + exhaustive fresh-interpreter correspondence"
 TECH["C04"] = TECH["C15"] = TECH["C20"] = "Coq 8.16 finite theorem (vm_compute) over tables regenerated from the running code + exhaustive correspondence"
 NOTE = "Trusted: Coq kernel; extraction (ExtrOcamlBasic/ExtrOcamlString) and ocaml/driver.ml; harness generators and canonicalisation; the hand-written model is tied to /repo only behaviourally (DESIGN.md 5, 9)."
 
